@@ -22,11 +22,27 @@ use std::time::{Duration, Instant};
 pub const KNOWN_CHECKS: [&str; 19] = [
     "CWE78", "CWE119", "CWE134", "CWE190", "CWE215", "CWE243", "CWE252", "CWE332", "CWE337", "CWE367", "CWE416", "CWE426", "CWE467", "CWE476", "CWE560", "CWE676", "CWE782", "CWE789", "Memory",
 ];
+/// The CWE identifiers a check reports under (README / module docs: CWE-119 "and its variants
+/// CWE-125 and CWE-787"; CWE-416 "and its variant CWE-415"; the Memory check "reports instances
+/// of CWE-476"). Every other check reports under its own name only.
+pub fn reports_as(check: &str) -> Vec<&'static str> {
+    match check {
+        "CWE119" => vec!["CWE119", "CWE125", "CWE787"],
+        "CWE416" => vec!["CWE416", "CWE415"],
+        "Memory" => vec!["CWE476"],
+        other => KNOWN_CHECKS.iter().copied().filter(|k| *k == other).collect(),
+    }
+}
 /// Checks whose warnings concern the whole binary and therefore carry no address.
 pub const CHECKS_WITHOUT_ADDRESS: [&str; 2] = ["CWE215", "CWE332"];
 
 pub fn repo_dir() -> String {
     std::env::var("VERIF_REPO_DIR").unwrap_or_else(|_| "/repo".to_string())
+}
+/// Development aid: restrict a run to the inputs whose label contains `$VERIF_CLI_ONLY`.
+/// Such a run is marked as capped (never exhaustive).
+pub fn dev_filter() -> Option<String> {
+    std::env::var("VERIF_CLI_ONLY").ok().filter(|s| !s.is_empty())
 }
 /// Scratch root: `/verif/work`, or the mutation runner's output directory.
 pub fn work_dir() -> String {
@@ -111,6 +127,11 @@ impl Cli {
         };
         let versions = props::ccl::get_modules().iter().map(|m| (m.name.to_string(), m.version.to_string())).collect();
         Cli { bin, xdg, scratch, preload, timeout: Duration::from_secs(120), versions, counter: AtomicU64::new(0), cpu_user_ms: AtomicU64::new(0) }
+    }
+
+    /// The known checks a warning can come from: those that report under its name and have its version.
+    pub fn owners(&self, w: &Warning) -> Vec<String> {
+        self.versions.iter().filter(|(m, ver)| **ver == w.version && reports_as(m).contains(&w.name.as_str())).map(|(m, _)| m.clone()).collect()
     }
 
     /// A fresh private directory for one input.
@@ -318,12 +339,13 @@ pub fn judge_wellformed(cli: &Cli, out: &RunOut) -> Judged {
         }
     }
     for w in &ws {
-        match cli.versions.get(&w.name) {
-            None => v.push((format!("warning names unknown check {}", msg_head(&w.name)), json!({"warning": w.description, "name": w.name}))),
-            Some(ver) => {
-                if *ver != w.version {
-                    v.push((format!("warning version mismatch: {} reported with version {} (check has {})", w.name, w.version, ver), json!({"warning": w.description})));
-                }
+        if cli.owners(w).is_empty() {
+            // which checks report under this identifier at all?
+            let candidates: Vec<String> = cli.versions.iter().filter(|(m, _)| reports_as(m).contains(&w.name.as_str())).map(|(m, v)| format!("{m} {v}")).collect();
+            if candidates.is_empty() {
+                v.push((format!("warning names unknown check {}", msg_head(&w.name)), json!({"warning": w.description, "name": w.name})));
+            } else {
+                v.push((format!("warning version mismatch: {} reported with version {} (reporting checks: {})", w.name, w.version, candidates.join(", ")), json!({"warning": w.description})));
             }
         }
         let needs_addr = !CHECKS_WITHOUT_ADDRESS.contains(&w.name.as_str());
